@@ -320,4 +320,10 @@ def snapshot_dir(root, with_content=True):
 
 def force_rmtree(path):
     """rmtree that copes with mode-000 directories (we are root, so chmod is not needed)."""
-    shutil.rmtree(path, ignore_errors=True)
+    try:
+        shutil.rmtree(path, ignore_errors=True)
+    except Exception:
+        pass              # RecursionError for trees thousands of levels deep
+    if os.path.lexists(path):
+        import subprocess
+        subprocess.run(["rm", "-rf", path], stdout=subprocess.DEVNULL, stderr=subprocess.DEVNULL)
